@@ -6,7 +6,7 @@ from vf.tape import Fail, notrace
 
 PROPERTY = 'C16'
 SLOTS = [('e0', '/'), ('e0', '/a'), ('e1', '/')]
-KINDS = ['connect', 'save', 'save-empty', 'block', 'nested-block', 'block-left-by-exception', 'save-inside-block', 'deferred-block',
+KINDS = ['connect', 'save', 'save-empty', 'block', 'nested-block', 'block-left-by-exception', 'save-inside-block', 'deferred-block', 'leave-own-room',
          'client-disconnect', 'server-disconnect']
 OPS = [(k, i) for k in KINDS for i in range(len(SLOTS))] + [('lose-reopen', 'e0'), ('lose-reopen', 'e1')]
 
@@ -152,6 +152,10 @@ def h(t, part):
             model[sid] = dict(model[sid])
             model[sid]['b%d' % step] = v
             saved_once = True
+        elif kind == 'leave-own-room':
+            # the application takes the client out of the room named after its session id (a "leave all rooms" loop does):
+            # the client stays connected and keeps its session
+            w.call(w.s.leave_room(sid, sid, namespace=ns))
         elif kind == 'deferred-block':
             # the context manager is created first, the session is replaced, then the block is entered: the block works on
             # the session as it is when it is entered
